@@ -716,6 +716,9 @@ func (vc *VC) cutPoints(fr *Frame, st *State, keys []string, prefix string) {
 				continue
 			}
 			vc.oblige(st, "assert", c.Name, g, c.Pos, c.Src)
+			if !isFrameClause(c.Name) {
+				vc.cutFacts[len(vc.facts)] = true
+			}
 			vc.assume(implies(st.reach, g))
 		}
 	}
@@ -1229,4 +1232,15 @@ func callOrdinal(fn *ssa.Function, x *ssa.Call, name string) int {
 		}
 	}
 	return n
+}
+
+// isFrameClause: the clause states a frame (by naming convention), as opposed
+// to a value lemma.
+func isFrameClause(name string) bool {
+	for _, p := range []string{"frame", "loopframe", "kept", "lk", "maps-kept"} {
+		if strings.HasPrefix(name, p) {
+			return true
+		}
+	}
+	return false
 }
